@@ -599,3 +599,21 @@ func DeferVariants(op *Op, max int) []*Op {
 	rec(0, nil)
 	return out
 }
+
+// AliasAll returns a copy of op in which every field (except __typename) has an
+// alias, so that response keys differ from field names on every level.
+func AliasAll(op *Op) *Op {
+	c := op.Clone()
+	var walk func(ns []*Node)
+	walk = func(ns []*Node) {
+		for _, n := range ns {
+			if n.Kind == 0 && n.Name != "__typename" && n.Alias == "" {
+				n.Alias = "x_" + n.Name
+			}
+			walk(n.Sub)
+		}
+	}
+	walk(c.Sel)
+	c.Note = strings.TrimSpace(op.Note + " alias-all")
+	return c
+}
